@@ -78,6 +78,9 @@ def same(a, b) -> bool:
         return a.keys() == b.keys() and all(same(a[k], b[k]) for k in a)
     if isinstance(a, (list, tuple)) and isinstance(b, (list, tuple)):
         return len(a) == len(b) and all(same(x, y) for x, y in zip(a, b))
+    if (type(a).__module__ or "").startswith("pandas") or (type(b).__module__ or "").startswith("pandas"):
+        # pandas objects carry per-instance caches / identity objects in __dict__: compare structurally
+        return canon(a) == canon(b)
     if hasattr(a, "__dict__") and hasattr(b, "__dict__") and type(a) is type(b):
         return same(vars(a), vars(b))
     try:
@@ -170,3 +173,428 @@ def closure(collection):
         return memo[k]
 
     return {k: leaves(k) for k in flat_keys(collection.__dask_keys__())}
+
+
+# ------------------------------------------------------------------------------------------------
+# C13: canonical structural digests, schedules with re-executions and lost results, instrumented execution
+# ------------------------------------------------------------------------------------------------
+
+import re as _re
+
+_ADDR = _re.compile(r" at 0x[0-9a-f]+")
+_TOKEN = _re.compile(r"-[0-9a-f]{32}$")
+
+
+def canon(obj, depth=0):
+    """a nested tuple that describes `obj` structurally and bitwise: container types, dict keys, scalars with their
+    type, ndarray dtype/shape/bytes, pandas indexes, callables by qualified name (functools.partial and dask's
+    Compose unwrapped), flox / dask task-spec objects through their attributes.  Two values with equal `canon`
+    are indistinguishable for a consumer; memory addresses never enter."""
+    import functools
+
+    if depth > 12:
+        return ("deep", type(obj).__name__)
+    if obj is None or isinstance(obj, (bool, int, str, bytes)):
+        return (type(obj).__name__, obj)
+    if isinstance(obj, float):
+        return ("float", np.float64(obj).tobytes())
+    if isinstance(obj, complex):
+        return ("complex", np.complex128(obj).tobytes())
+    if isinstance(obj, np.ndarray):
+        if obj.dtype == object:
+            return ("ndarray", "object", obj.shape, tuple(canon(x, depth + 1) for x in obj.reshape(-1).tolist()))
+        return ("ndarray", str(obj.dtype), obj.shape, np.ascontiguousarray(obj).tobytes())
+    if isinstance(obj, np.generic):
+        return ("npscalar", str(obj.dtype), obj.tobytes())
+    if isinstance(obj, np.dtype):
+        return ("dtype", str(obj))
+    mod = type(obj).__module__ or ""
+    if mod.startswith("pandas"):
+        import pandas as pd
+
+        if isinstance(obj, pd.RangeIndex):
+            return ("RangeIndex", obj.start, obj.stop, obj.step, canon(obj.name, depth + 1))
+        if isinstance(obj, pd.MultiIndex):
+            return ("MultiIndex", tuple(canon(l, depth + 1) for l in obj.levels), tuple(canon(np.asarray(c), depth + 1) for c in obj.codes))
+        if isinstance(obj, pd.IntervalIndex):
+            return ("IntervalIndex", obj.closed, canon(np.asarray(obj.left), depth + 1), canon(np.asarray(obj.right), depth + 1))
+        if isinstance(obj, pd.Index):
+            return ("Index", type(obj).__name__, str(obj.dtype), canon(obj.to_numpy(), depth + 1), canon(obj.name, depth + 1))
+        if isinstance(obj, pd.Interval):
+            return ("Interval", obj.closed, canon(obj.left, depth + 1), canon(obj.right, depth + 1))
+        return ("pandas", type(obj).__name__, _ADDR.sub("", repr(obj)))
+    if isinstance(obj, dict):
+        items = [(canon(k, depth + 1), canon(v, depth + 1)) for k, v in obj.items()]
+        return ("dict", type(obj).__name__, tuple(sorted(items, key=lambda kv: repr(kv[0]))))
+    if isinstance(obj, (list, tuple)):
+        return (type(obj).__name__, tuple(canon(x, depth + 1) for x in obj))
+    if isinstance(obj, (set, frozenset)):
+        return (type(obj).__name__, tuple(sorted((canon(x, depth + 1) for x in obj), key=repr)))
+    if isinstance(obj, functools.partial):
+        return ("partial", canon(obj.func, depth + 1), canon(obj.args, depth + 1), canon(obj.keywords, depth + 1))
+    if type(obj).__name__ == "Compose" and hasattr(obj, "first") and hasattr(obj, "funcs"):
+        return ("Compose", canon(obj.first, depth + 1), canon(tuple(obj.funcs), depth + 1))
+    if mod == "dask._task_spec":
+        fields = []
+        for cls in type(obj).__mro__:
+            for s in getattr(cls, "__slots__", ()):
+                if s in ("_token", "_repr", "_is_coro", "_dependencies", "_data_producer"):
+                    continue
+                if hasattr(obj, s):
+                    fields.append((s, canon(getattr(obj, s), depth + 1)))
+        return ("taskspec", type(obj).__name__, tuple(fields))
+    if callable(obj) and hasattr(obj, "__qualname__"):
+        clo = getattr(obj, "__closure__", None)
+        cells = ()
+        if clo:
+            try:
+                cells = tuple(canon(c.cell_contents, depth + 1) for c in clo)
+            except ValueError:
+                cells = ("empty-cell",)
+        return ("callable", getattr(obj, "__module__", None), obj.__qualname__, cells)
+    if isinstance(obj, type):
+        return ("type", obj.__module__, obj.__qualname__)
+    if mod.startswith("flox") or mod.startswith("dask") or hasattr(obj, "__dataclass_fields__"):
+        try:
+            d = vars(obj)
+        except TypeError:
+            d = {s: getattr(obj, s) for s in getattr(type(obj), "__slots__", ()) if hasattr(obj, s)}
+        # functools.cached_property stores its (pure, idempotent) result in the instance __dict__ on first use: a lazily
+        # filled cache is not a state change (flox.aggregations.Aggregation.simple_combine / num_new_vector_dims)
+        cached = {n for cls in type(obj).__mro__ for n, v in vars(cls).items() if isinstance(v, functools.cached_property)}
+        return ("obj", mod, type(obj).__qualname__, canon({k: v for k, v in dict(d).items() if k not in cached}, depth + 1))
+    import enum
+
+    if isinstance(obj, enum.Enum):
+        return ("enum", type(obj).__qualname__, obj.name)
+    return ("repr", type(obj).__name__, _ADDR.sub("", repr(obj)))
+
+
+def digest2(obj) -> str:
+    return hashlib.sha1(repr(canon(obj)).encode()).hexdigest()
+
+
+def all_arrays(obj, acc=None, depth=0, seen=None):
+    """every ndarray reachable from a value (containers, flox / dataclass objects, pandas index buffers)"""
+    if acc is None:
+        acc, seen = [], set()
+    if depth > 8 or id(obj) in seen:
+        return acc
+    seen.add(id(obj))
+    if isinstance(obj, np.ndarray):
+        acc.append(obj)
+        if obj.dtype == object:
+            for x in obj.reshape(-1).tolist():
+                all_arrays(x, acc, depth + 1, seen)
+    elif isinstance(obj, dict):
+        for v in obj.values():
+            all_arrays(v, acc, depth + 1, seen)
+    elif isinstance(obj, (list, tuple)):
+        for v in obj:
+            all_arrays(v, acc, depth + 1, seen)
+    elif (type(obj).__module__ or "").startswith("flox") or hasattr(obj, "__dataclass_fields__"):
+        try:
+            for v in vars(obj).values():
+                all_arrays(v, acc, depth + 1, seen)
+        except TypeError:
+            pass
+    return acc
+
+
+def freeze2(obj):
+    n = 0
+    for a in all_arrays(obj):
+        if a.flags.writeable:
+            try:
+                a.setflags(write=False)
+                n += 1
+            except ValueError:
+                pass
+    return n
+
+
+def thaw_copy(obj):
+    """deep copy in which every array is writeable (for the writable-buffers leg)"""
+    import copy
+
+    out = copy.deepcopy(obj)
+    for a in all_arrays(out):
+        try:
+            a.setflags(write=True)
+        except ValueError:
+            pass
+    return out
+
+
+def layer_kind(key) -> str:
+    name = key[0] if isinstance(key, tuple) else key
+    name = str(name)
+    name = _TOKEN.sub("", name)
+    name = _re.sub(r"-[0-9a-f]{8,}", "", name)
+    name = _re.sub(r"groupby_[a-z]+", "groupby_F", name)
+    name = _re.sub(r"-\d+", "", name)
+    if name.count("groupby") >= 2 or len(name) > 48:
+        return "fused:" + name.split("-")[0]
+    return name
+
+
+def describe_func(task) -> str:
+    import functools
+
+    f = getattr(task, "func", None)
+    if f is None:
+        return type(task).__name__
+    names = []
+
+    def walk(g, depth=0):
+        if depth > 6:
+            return
+        if isinstance(g, functools.partial):
+            walk(g.func, depth + 1)
+        elif type(g).__name__ == "Compose" and hasattr(g, "funcs"):
+            for h in (g.first,) + tuple(g.funcs):
+                walk(h, depth + 1)
+        else:
+            names.append(getattr(g, "__qualname__", type(g).__name__))
+
+    walk(f)
+    return "∘".join(names)
+
+
+class Multi:
+    """several dask collections seen as one graph (result and lazily computed group labels)"""
+
+    def __init__(self, *collections):
+        self.collections = [c for c in collections if hasattr(c, "__dask_graph__")]
+
+    def __dask_graph__(self):
+        g = {}
+        for c in self.collections:
+            g.update(dict(c.__dask_graph__()))
+        return g
+
+    def __dask_keys__(self):
+        return [c.__dask_keys__() for c in self.collections]
+
+
+class Impurity(PurityError):
+    def __init__(self, kind, key, func, detail):
+        super().__init__(f"{kind}: task {key!r} [{func}] {detail}")
+        self.kind, self.key, self.func, self.detail = kind, key, func, detail
+
+
+class Instrumented:
+    """a materialised graph + schedules over it.
+
+    ops are ('e', key) = execute / ('l', key) = lose the stored result.  `run` executes a list of ops on the REAL task
+    objects and checks, per execution:
+      * (frozen mode) every array reachable from the inputs and from every stored result is read-only: a write raises;
+      * the structural digest of every input is the same after the call as before (names the input that changed);
+      * the task's own embedded state (callable, partial arguments, Aggregation objects …) is unchanged by the call;
+      * an immediate second call returns an equal value; a call of the cloudpickle round-tripped task on
+        cloudpickle round-tripped inputs returns an equal value;
+      * every execution of a key during the schedule gives the value of its first execution.
+    """
+
+    def __init__(self, collection):
+        self.graph = materialize(collection)
+        self.keys = sorted(self.graph, key=repr)
+        self.index = {k: i for i, k in enumerate(self.keys)}
+        self.deps = {k: sorted(getattr(self.graph[k], "dependencies", ()), key=lambda d: self.index[d]) for k in self.keys}
+        self.out_keys = collection.__dask_keys__()
+        self.leaves = [k for k in self.keys if not self.deps[k]]
+        import cloudpickle
+
+        self.pickle_error = None
+        try:
+            self.pristine = cloudpickle.dumps(self.graph)
+        except Exception as e:  # noqa
+            self.pristine, self.pickle_error = None, e
+
+    # -- schedules --------------------------------------------------------------------------------
+    def topo(self, rng: random.Random):
+        remaining = set(self.keys)
+        done = set()
+        order = []
+        ready = [k for k in self.keys if not self.deps[k]]
+        while remaining:
+            k = ready.pop(rng.randrange(len(ready)))
+            remaining.discard(k)
+            done.add(k)
+            order.append(k)
+            for k2 in self.keys:
+                if k2 in remaining and k2 not in ready and all(d in done for d in self.deps[k2]):
+                    ready.append(k2)
+        return order
+
+    def schedule(self, rng: random.Random, p_rerun=0.3, p_lose=0.2):
+        """random topological order with extra executions of present keys and lost results; everything lost is
+        recomputed (with whatever it needs) so that all keys are present at the end"""
+        ops, present = [], set()
+
+        def ensure(k):
+            for d in self.deps[k]:
+                if d not in present:
+                    ensure(d)
+            ops.append(("e", k))
+            present.add(k)
+
+        for k in self.topo(rng):
+            if k not in present:
+                ensure(k)
+            else:
+                ops.append(("e", k))
+            r = rng.random()
+            if r < p_rerun and present:
+                k2 = rng.choice(sorted(present, key=self.index.get))
+                if all(d in present for d in self.deps[k2]):
+                    ops.append(("e", k2))
+            elif r < p_rerun + p_lose and present:
+                k2 = rng.choice(sorted(present, key=self.index.get))
+                ops.append(("l", k2))
+                present.discard(k2)
+        for k in self.keys:
+            if k not in present:
+                ensure(k)
+        return ops
+
+    def ops_token(self, ops) -> str:
+        return " ".join(("e" if o == "e" else "l") + str(self.index[k]) for o, k in ops)
+
+    def deps_token(self) -> str:
+        return ";".join(".".join(str(self.index[d]) for d in self.deps[k]) or "-" for k in self.keys)
+
+    def linear_extensions(self, fixed_prefix, cap):
+        """all dependency-respecting orders of the keys not in fixed_prefix (executed first, in that order); None if
+        there are more than cap"""
+        rest = [k for k in self.keys if k not in set(fixed_prefix)]
+        out = []
+
+        def rec(done, order, remaining):
+            if len(out) > cap:
+                return
+            if not remaining:
+                out.append(list(order))
+                return
+            for k in remaining:
+                if all(d in done for d in self.deps[k]):
+                    done.add(k)
+                    order.append(k)
+                    rec(done, order, [x for x in remaining if x != k])
+                    order.pop()
+                    done.discard(k)
+
+        rec(set(fixed_prefix), [], rest)
+        return None if len(out) > cap else [list(fixed_prefix) + o for o in out]
+
+    # -- execution ---------------------------------------------------------------------------------
+    def run(self, ops, *, mode="frozen", rerun=True, pickle=True, stats=None, fresh=False):
+        """returns (memo, digests) where digests[key] = digest of the key's value.
+
+        fresh=True executes a cloudpickle copy of the whole graph taken before anything ran (tasks in their pristine
+        state; objects shared between tasks stay shared inside the copy)"""
+        import cloudpickle
+
+        graph = cloudpickle.loads(self.pristine) if fresh else self.graph
+        memo, first = {}, {}
+
+        def count(name, n=1):
+            if stats is not None:
+                stats[name] = stats.get(name, 0) + n
+
+        for pos, (o, k) in enumerate(ops):
+            if o == "l":
+                del memo[k]
+                continue
+            task = graph[k]
+            fn = describe_func(task)
+            inputs = {d: memo[d] for d in self.deps[k]}
+            if mode == "frozen":
+                freeze2(inputs)
+            before = {d: digest2(v) for d, v in inputs.items()}
+            state0 = digest2(task)
+            pristine_task = None
+            if pickle:
+                try:
+                    pristine_task = cloudpickle.dumps(task)       # shipped BEFORE its first execution here
+                except Exception as e:  # noqa
+                    raise Impurity("not-picklable", k, fn, f"cloudpickle failed: {e!r}")
+            try:
+                val = task(inputs)
+            except (ValueError, TypeError) as e:
+                msg = str(e)
+                if not ("read-only" in msg or "readonly" in msg or "not writeable" in msg or "WRITEABLE" in msg):
+                    raise
+                # a write into a read-only input, or a compiled kernel that merely refuses const buffers?  decide by
+                # running the task on writable deep copies of the inputs and hashing them before / after
+                win = thaw_copy(inputs)
+                wbefore = {d: digest2(v) for d, v in win.items()}
+                val = task(win)
+                wchanged = [d for d, v in win.items() if digest2(v) != wbefore[d]]
+                if wchanged:
+                    raise Impurity("writes-into-input", k, fn, f"raised {e!r} on read-only inputs and, on writable copies, "
+                                   f"changed the value stored under {wchanged!r} (op #{pos})")
+                count("readonly-refused-but-pure")
+                inputs = win
+            changed = [d for d, v in inputs.items() if digest2(v) != before[d]]
+            if changed:
+                raise Impurity("modified-input", k, fn, f"changed the value stored under {changed!r} (op #{pos})")
+            state1 = digest2(task)
+            if state1 != state0:
+                # the task wrote into the state embedded in its own task object (e.g. the per-call Aggregation copy).  This is
+                # tolerated only if it is idempotent and invisible: the state must not move again on a second execution, and
+                # the copy shipped in its pristine state, this object, and a copy shipped now must all return the same value
+                count("self-state-write:" + fn)
+            dv = digest2(val)
+            count("executions")
+            if rerun or state1 != state0:
+                try:
+                    val2 = task(inputs)
+                except Exception as e:  # noqa
+                    raise Impurity("rerun-raises", k, fn, f"succeeded once but raised {e!r} when executed again on the same inputs")
+                if digest2(val2) != dv:
+                    raise Impurity("rerun-differs", k, fn, "returned a different value when executed again on the same inputs")
+                if digest2(task) != state1:
+                    raise Impurity("state-not-idempotent", k, fn, "the state embedded in the task object changes with every execution")
+                count("reruns")
+            if pickle:
+                try:
+                    t2 = cloudpickle.loads(cloudpickle.dumps(task))
+                    t0 = cloudpickle.loads(pristine_task)
+                    in2 = cloudpickle.loads(cloudpickle.dumps(inputs))
+                    in0 = cloudpickle.loads(cloudpickle.dumps(inputs))
+                except Exception as e:  # noqa
+                    raise Impurity("not-picklable", k, fn, f"cloudpickle failed: {e!r}")
+                for which, tt, ii in (("after its first execution", t2, in2), ("before its first execution", t0, in0)):
+                    try:
+                        val3 = tt(ii)
+                    except Exception as e:  # noqa
+                        raise Impurity("pickle-raises", k, fn, f"the task shipped {which} raised {e!r}")
+                    if digest2(val3) != dv:
+                        raise Impurity("pickle-differs", k, fn, f"the task shipped {which} (cloudpickle round trip of the task and its "
+                                       f"inputs) returns a different value")
+                count("pickled", 2)
+            if k in first and first[k] != dv:
+                raise Impurity("later-execution-differs", k, fn, f"op #{pos}: value differs from the first execution of this key")
+            first.setdefault(k, dv)
+            if mode == "frozen":
+                freeze2(val)
+            elif not self.deps[k]:
+                val = thaw_copy(val)     # leaves are views of the user's (read-only) arrays: this leg wants writable buffers
+            memo[k] = val
+        return memo, first
+
+    def collect(self, memo, keys=None):
+        keys = self.out_keys if keys is None else keys
+        if isinstance(keys, list):
+            return [self.collect(memo, k) for k in keys]
+        return memo[keys]
+
+
+def assemble(blocks):
+    """nested list of blocks (as __dask_keys__) -> ndarray"""
+    from dask.array.core import concatenate3
+
+    if not isinstance(blocks, list):
+        return np.asarray(blocks)
+    return concatenate3(blocks)
